@@ -259,3 +259,8 @@ def _names(repo: Repo, rep: Report) -> None:
     if n < 40:
         rep.error(f"R04.4: only {n} method names computed")
     rep.samples.append({"rule": "R04.4", "names": sorted(names)[:12]})
+
+
+_ADDENDUM = ' Borrowed: R14.8 / R14.9 (builder inputs such as the shared encoder_kwargs are never mutated in place; per-builder stores are not bound to longer-lived objects).'
+EXPLANATION += _ADDENDUM
+LEVEL_TEXT += _ADDENDUM
